@@ -347,6 +347,7 @@ func scenarioHandleDeadline(env *lifeEnv, r *hv.Rand) {
 }
 
 func runServerScenarios(env *lifeEnv, r *hv.Rand) {
+	exploreHandle(env, r)
 	for i := 0; i < hv.Scale(8, 200); i++ {
 		scenarioServerClose(env, r)
 	}
@@ -355,5 +356,111 @@ func runServerScenarios(env *lifeEnv, r *hv.Rand) {
 	}
 	for i := 0; i < hv.Scale(5, 100); i++ {
 		scenarioHandleDeadline(env, r)
+	}
+}
+
+// ---------------------------------------------------------------- gated schedule exploration on a Handle
+// Handle.ReadMsg / SetReadDeadline / Close go through the deadline queue's yield points (and the
+// h.* points): three goroutines, one call each, interleavings sampled with the hooks as gates.
+func exploreHandle(env *lifeEnv, r *hv.Rand) {
+	dls := []string{"zero", "late"}
+	for k := 0; k < hv.Scale(60, 1500); k++ {
+		sp, err := newSvPair(env, 1)
+		if err != nil {
+			continue
+		}
+		h := sp.handles[0]
+		dl := dls[k%2]
+		buf := make([]byte, 64)
+		fns := []func() int64{
+			func() int64 { _, e := h.ReadMsg(buf); return lcode(e) },
+			func() int64 {
+				if dl == "zero" {
+					return lcode(h.SetReadDeadline(time.Time{}))
+				}
+				return lcode(h.SetReadDeadline(time.Now().Add(time.Hour)))
+			},
+			func() int64 { return lcode(h.Close()) },
+		}
+		names := []string{"Handle.ReadMsg", "Handle.SetReadDeadline(" + dl + ")", "Handle.Close"}
+		n := len(fns)
+		c := newController(n)
+		res := make([]int64, n)
+		for i := range res {
+			res[i] = -1
+		}
+		var resMu sync.Mutex
+		common.SetVerifYield(func(pt string) {
+			if strings.HasPrefix(pt, "dc.") || strings.HasPrefix(pt, "h.") {
+				c.hook(pt)
+			}
+		})
+		var wg sync.WaitGroup
+		for i := 0; i < n; i++ {
+			wg.Add(1)
+			go func(i int) {
+				defer wg.Done()
+				c.register(i)
+				v := guard(fns[i])
+				resMu.Lock()
+				res[i] = v
+				resMu.Unlock()
+				c.workerDone(i)
+			}(i)
+		}
+		ok := c.settle()
+		var sched []int
+		for ok {
+			pk := c.parked()
+			if len(pk) == 0 {
+				break
+			}
+			pick := pk[r.Intn(len(pk))]
+			sched = append(sched, pick)
+			c.grantTo(pick)
+			ok = c.settle()
+		}
+		resMu.Lock()
+		snap := append([]int64(nil), res...)
+		resMu.Unlock()
+		steps := stepList(c.steps)
+		c.release()
+		common.SetVerifYield(nil)
+		// cleanup: Server.Close closes every session; bounded
+		sp.teardown()
+		done := make(chan struct{})
+		go func() { wg.Wait(); close(done) }()
+		leaked := false
+		select {
+		case <-done:
+		case <-time.After(time.Second):
+			leaked = true
+		}
+		v := verdict{true, "", ""}
+		var rs []string
+		for i, x := range snap {
+			rs = append(rs, names[i]+"="+lstr(x))
+		}
+		switch {
+		case !ok:
+			v = verdict{false, "C17:driver-could-not-settle", "a worker stayed runnable for 10 s"}
+		case snap[0] == 900 || snap[1] == 900 || snap[2] == 900:
+			v = verdict{false, "C17:panic", "a Handle call panicked: " + lastPanic()}
+		case snap[2] < 0:
+			v = verdict{false, "C17:handle-close-never-returned", strings.Join(rs, ", ")}
+		case snap[0] < 0 || snap[1] < 0:
+			v = verdict{false, "C17:handle-read-not-released-by-close", "Handle.Close returned but: " + strings.Join(rs, ", ")}
+		case snap[0] != 1:
+			v = verdict{false, "C17:handle-read-not-eof-after-close", "ReadMsg released by Close returned " + lstr(snap[0])}
+		case leaked:
+			v = verdict{false, "C17:goroutine-leak", "workers still blocked after Server.Close"}
+		}
+		var ss []string
+		for _, s := range sched {
+			ss = append(ss, hv.Ni(s))
+		}
+		desc := "T0:" + names[0] + " T1:" + names[1] + " T2:" + names[2] + " schedule=" + strings.Join(ss, ",") + " => " + strings.Join(rs, ", ")
+		hv.Emit(hv.Case{Class: "explore-handle", Desc: desc, Spec: v.ok, Sig: v.sig, What: v.what, NT: len(sched) > 6, Key: desc,
+			Replay: map[string]interface{}{"program": names, "schedule": sched, "steps(thread@yield-point)": steps, "results": rs}})
 	}
 }
